@@ -90,9 +90,6 @@ structure Sem (G : Graph S) where
   Λ : Nat → Nat → Tensor S → Tensor S
   κ : Nat → Bool
   slotDims : ∀ n s, s ∈ G.kids n → s.dims = dimsOf s.node
-  /-- a tracked slot carries the keep flag `κ` of its node — except slots pointing to leaves, whose
-      keep flag is irrelevant (a node without stored operands always stores its gradient) -/
-  slotKeep : ∀ n s, s ∈ G.kids n → s.tracked = true → (G.kids s.node = [] ∨ s.keep = κ s.node)
   /-- node dimensions are valid array dimensions -/
   dimsValid : ∀ n, dimsOf n ≠ [] ∧ ∀ d ∈ dimsOf n, 1 ≤ d
   /-- a closure that answers, answers with one entry per operand; for a tracked operand the entry,
@@ -300,12 +297,16 @@ theorem merge_pend (k : Nat) (old : Option (Tensor S)) (d' nd : Tensor S)
 
 section invariant
 variable (B : Nat) (wf : G.WF)
-include wf
+  /- the only assumption about keep flags: tracked slots pointing to the observed node `ℓ` itself store
+     (or not) as `κ ℓ` says; it is vacuous when `ℓ` is a leaf, which always stores -/
+  (hkeep : ∀ n s, s ∈ G.kids n → s.tracked = true → s.node = ℓ → ((G.kids ℓ).isEmpty || s.keep) = stores sem ℓ)
+include wf hkeep
 
 /-- the delivery loop moves `Σ P (operand) (Λ …)` from "nowhere" into pending deltas (and recursion
     preserves the total) -/
 theorem deliver_T (f : Nat)
-    (ih : ∀ n σ σ', n < f → n < B → VInv sem ℓ σ → process G f n (sem.κ n) σ = .ok σ' →
+    (ih : ∀ n keep σ σ', n < f → n < B → VInv sem ℓ σ →
+        (n = ℓ → ((G.kids n).isEmpty || keep) = stores sem n) → process G f n keep σ = .ok σ' →
         VInv sem ℓ σ' ∧ T sem ℓ j B σ' = T sem ℓ j B σ)
     (n : Nat) (hnf : n ≤ f) (hnB : n < B) (x : Tensor S) (hx : Shaped (sem.dimsOf n) x) :
     ∀ (ks : List Slot) (i0 : Nat) (ds : List (Option (Tensor S))) (σ σ' : EState S),
@@ -375,11 +376,8 @@ theorem deliver_T (f : Nat)
         have h3 : VInv sem ℓ σ3 ∧ T sem ℓ j B σ3 = T sem ℓ j B σ2 := by
           by_cases h1 : σ.cnt s.node = 1
           · rw [if_pos h1] at hrec
-            have hrec' : process G f s.node (sem.κ s.node) σ2 = .ok σ3 := by
-              rcases sem.slotKeep n s hsm ht with hleaf | hk
-              · rw [← hrec]; exact process_leaf_keep G f s.node _ _ σ2 hleaf
-              · rw [← hk]; exact hrec
-            exact ih s.node σ2 σ3 (by omega) (by omega) hv2 hrec'
+            exact ih s.node s.keep σ2 σ3 (by omega) (by omega) hv2
+              (fun e => by have := hkeep n s hsm ht e; rw [e]; exact this) hrec
           · rw [if_neg h1] at hrec
             simp only [pure, Except.pure, Except.ok.injEq] at hrec
             subst hrec
@@ -400,13 +398,14 @@ theorem deliver_T (f : Nat)
         simp [sumSlots, htf, AddLaws.zero_add]
 
 /-- entering a node redistributes its pending delta: the total is conserved -/
-theorem process_T : ∀ (f n : Nat) (σ σ' : EState S), n < f → n < B → VInv sem ℓ σ →
-    process G f n (sem.κ n) σ = .ok σ' → VInv sem ℓ σ' ∧ T sem ℓ j B σ' = T sem ℓ j B σ := by
+theorem process_T : ∀ (f n : Nat) (keep : Bool) (σ σ' : EState S), n < f → n < B → VInv sem ℓ σ →
+    (n = ℓ → ((G.kids n).isEmpty || keep) = stores sem n) →
+    process G f n keep σ = .ok σ' → VInv sem ℓ σ' ∧ T sem ℓ j B σ' = T sem ℓ j B σ := by
   intro f
   induction f with
-  | zero => intro n _ _ h; omega
+  | zero => intro n _ _ _ h; omega
   | succ f ih =>
-    intro n σ σ' hnf hnB hv hok
+    intro n keep σ σ' hnf hnB hv hke hok
     simp only [process] at hok
     cases hdel : σ.delta n with
     | none => simp [hdel, throw, throwThe, MonadExceptOf.throw] at hok
@@ -445,7 +444,7 @@ theorem process_T : ∀ (f n : Nat) (σ σ' : EState S), n < f → n < B → VIn
             | ok ds =>
               simp only [hcl] at hm
               obtain ⟨hlen, hloc⟩ := sem.local_ n cl x ds hvj hx hcl
-              exact deliver_T sem ℓ j B wf f (fun n σ σ' h1 h2 h3 h4 => ih n σ σ' h1 h2 h3 h4) n (by omega) hnB x hx
+              exact deliver_T sem ℓ j B wf hkeep f (fun n keep σ σ' h1 h2 h3 h4 h5 => ih n keep σ σ' h1 h2 h3 h4 h5) n (by omega) hnB x hx
                 (G.kids n) 0 ds σ0 σ1 (fun k s hk => by simpa using hk)
                 (fun k s hk => by simpa using hloc k s hk) hlen hv0 hm
           | none =>
@@ -459,7 +458,7 @@ theorem process_T : ∀ (f n : Nat) (σ σ' : EState S), n < f → n < B → VIn
         obtain ⟨hv1, hT1⟩ := h1
         have hunf := Pf_unfold sem ℓ j wf n x
         -- the final accumulation into the gradient cell
-        by_cases hst : ((G.kids n).isEmpty || sem.κ n) = true
+        by_cases hst : ((G.kids n).isEmpty || keep) = true
         · simp only [hst, if_true] at hok
           simp only [storeGrad, bind, Except.bind] at hok
           cases hg : mergeDelta (σ1.grad n) x with
@@ -493,7 +492,7 @@ theorem process_T : ∀ (f n : Nat) (σ σ' : EState S), n < f → n < B → VIn
                 have hfin : T sem n j B { σ1 with grad := upd σ1.grad n (some g) } = T sem n j B σ1 + coord j x.vals := by
                   unfold T
                   rw [hgv, hpv, AddLaws.add_assoc, AddLaws.add_comm (coord j x.vals), ← AddLaws.add_assoc]
-                have hcond : (n = n ∧ stores sem n = true) := ⟨rfl, by simpa [stores] using hst⟩
+                have hcond : (n = n ∧ stores sem n = true) := ⟨rfl, by rw [← hke rfl]; exact hst⟩
                 rw [hfin, hT1, hT0, hunf, if_pos hcond, AddLaws.add_assoc,
                   AddLaws.add_comm (sumSlots sem (P sem n j) n x (G.kids n) 0)]
             · -- another node's cell: the observed gradient is untouched
@@ -517,7 +516,7 @@ theorem process_T : ∀ (f n : Nat) (σ σ' : EState S), n < f → n < B → VIn
           subst hok
           refine ⟨hv1, ?_⟩
           rw [hT1, hT0, hunf]
-          have : ¬ (n = ℓ ∧ stores sem n = true) := fun h => hst (by simpa [stores] using h.2)
+          have : ¬ (n = ℓ ∧ stores sem n = true) := fun h => hst (by rw [hke h.1]; exact h.2)
           simp only [this, if_false, AddLaws.zero_add]
 
 /-- **The path-sum theorem.**  On every well-founded graph with lawful closures whose contributions
@@ -552,7 +551,7 @@ theorem backward_pathsum (lawful : G.Lawful) (fuel root : Nat) (hf : root < fuel
     · simp [pendVal, pendOf, σp, upd, AddLaws.zero_add]
     · intro m hm
       simp [pendVal, pendOf, σp, upd, hm, hd0 m]
-  obtain ⟨hv', hT'⟩ := process_T sem ℓ j (root + 1) wf fuel root σp σ' hf (by omega) hvp hok
+  obtain ⟨hv', hT'⟩ := process_T sem ℓ j (root + 1) wf hkeep fuel root (sem.κ root) σp σ' hf (by omega) hvp (fun _ => rfl) hok
   refine ⟨?_, hv'.gshape⟩
   have hzero : sumN (pendVal sem ℓ j σ') (root + 1) = zero :=
     sumN_zero _ _ (fun m _ => by simp [pendVal, pendOf, hcount.1.2 m])
